@@ -224,7 +224,10 @@ def proof_side(pid, thorough):
         p2 = run(["lake", "build", "ohdriver"], cwd=LEAN, timeout=3600)
         out["driver_ok"] = p2.returncode == 0
         errs = [l for l in p.stdout.split("\n") if l.startswith("error:")]
-        out["broken"].append((mod, "; ".join(errs[:5])[:600] or "lake build failed"))
+        # a front end of rs2lean.py that met a construct outside its subset leaves ITS section out of the generated
+        # module (the other sections stay): the theorems about that section are what stops building here
+        skipped = [l.strip() for _, _, msg in tr for l in msg.split("\n") if "NOT TRANSLATED" in l]
+        out["broken"].append((mod, ("; ".join(skipped)[:500] + " => " if skipped else "") + ("; ".join(errs[:5])[:600] or "lake build failed")))
         return out
     out["driver_ok"] = True
     # axiom audit
